@@ -163,6 +163,19 @@ class Engine:
             v = v.lower()
             return st.alloc(Dict(k, v, fresh(name + '_dom', z3.ArraySort(ks, B)),
                                  fresh(name + '_val', z3.ArraySort(ks, self.sort_of_kind(v)))))
+        if ty.startswith('Pair[') and ty.endswith(']'):
+            # a tuple of fixed length with individually typed components
+            parts, depth, cur = [], 0, ''
+            for ch in ty[5:-1]:
+                if ch == ',' and depth == 0:
+                    parts.append(cur)
+                    cur = ''
+                else:
+                    depth += ch == '['
+                    depth -= ch == ']'
+                    cur += ch
+            parts.append(cur)
+            return VTuple([self.make_input(st, '%s_%d' % (name, k), p) for k, p in enumerate(parts)])
         if ty == 'Val':
             return VVal(fresh(name, self.world.Val))
         if ty == 'Fn':
@@ -738,6 +751,10 @@ class Engine:
             if n == 'isnone':
                 v = self.sev(e.args[0], st, bound)
                 return VBool(self.compare(st, ast.Is(), v, NONE))
+            if n == 'some':
+                # the value of an optional (meaningful only under `not isnone(x)`, which the contract states)
+                v = self.sev(e.args[0], st, bound)
+                return v.val if v.kind == 'opt' else v
             if n == 'real':
                 return VReal(to_real(self.sev(e.args[0], st, bound)))
             if n in self.ghosts:
